@@ -468,3 +468,7 @@ Proof.
   rewrite <- !zpow_mod_pow by (vm_compute; try reflexivity; discriminate).
   split; vm_compute; reflexivity.
 Qed.
+
+(* ---------- bit tests used by exp and inv ---------- *)
+Lemma land_1_mod2 x : Z.land x 1 = x mod 2.
+Proof. change 1 with (Z.ones 1) at 1. rewrite Z.land_ones by lia. reflexivity. Qed.
